@@ -117,7 +117,7 @@ fn main() {
             vec![(
                 "replication".into(),
                 Box::new(c11::scenario(known.open_for("C11"), if tier == "thorough" { 2 } else { 1 })),
-                Tiered { quick: lim(4, 3, true, 45), thorough: lim(7, 4, true, 600) },
+                Tiered { quick: lim(6, 3, true, 45), thorough: lim(9, 5, true, 600) },
                 "graph",
             )],
             &[
@@ -136,7 +136,7 @@ fn main() {
                 vec![(
                     "promotion".into(),
                     Box::new(c12::scenario(known.open_for("C12"))),
-                    Tiered { quick: lim(4, 3, true, 50), thorough: lim(6, 4, true, 600) },
+                    Tiered { quick: lim(5, 3, true, 50), thorough: lim(7, 4, true, 600) },
                     "graph",
                 )],
                 &[
@@ -229,7 +229,7 @@ fn main() {
                 (
                     "aggregator".into(),
                     Box::new(c16::agg_scenario()),
-                    Tiered { quick: lim(6, 4, false, 45), thorough: lim(8, 6, false, 600) },
+                    Tiered { quick: lim(7, 5, false, 45), thorough: lim(8, 6, false, 600) },
                     "tree",
                 ),
                 (
@@ -262,13 +262,13 @@ fn main() {
                 (
                     "full-alphabet".into(),
                     Box::new(props_session::c13(&known, true)),
-                    Tiered { quick: lim(2, 2, true, 40), thorough: lim(3, 2, true, 500) },
+                    Tiered { quick: lim(3, 2, true, 40), thorough: lim(4, 3, true, 500) },
                     "graph",
                 ),
                 (
                     "core-alphabet".into(),
                     Box::new(props_session::c13(&known, false)),
-                    Tiered { quick: lim(3, 2, true, 40), thorough: lim(5, 3, true, 500) },
+                    Tiered { quick: lim(4, 2, true, 40), thorough: lim(6, 4, true, 500) },
                     "graph",
                 ),
             ],
@@ -284,6 +284,12 @@ fn main() {
                     "adversary-full".into(),
                     Box::new(props_session::c17(&known, true)),
                     Tiered { quick: lim(2, 2, false, 40), thorough: lim(3, 2, false, 600) },
+                    "tree",
+                ),
+                (
+                    "adversary-core".into(),
+                    Box::new(props_session::c17(&known, false)),
+                    Tiered { quick: lim(3, 2, false, 40), thorough: lim(4, 3, false, 600) },
                     "tree",
                 ),
             ],
